@@ -83,10 +83,27 @@ def _run_case(case):
                 persistent[:] = [v for v, _ in vals]  # the caller keeps one list and edits it in place between renders
                 array = persistent
                 res.label("same_list_object_reused")
+            elif op.get("as") == "fsarray_setitem":
+                from curtsies.formatstring import fmtstr as _fmtstr
+                from curtsies.formatstringarray import FSArray
+
+                # an FSArray of some declared width whose rows are put in by a[i] = row: rows stay as long as they are
+                # (ragged), shorter or longer than the declared width
+                array = FSArray(len(vals), op.get("declared_width", 1))
+                for i_, (v_, _) in enumerate(vals):
+                    array[i_] = v_ if not isinstance(v_, str) else _fmtstr(v_)
+                res.label("fsarray_rows_set_by_index")
+            elif op.get("as") == "fsarray":
+                from curtsies.formatstringarray import fsarray as _fsarray
+
+                # fsarray(rows, width): declared width >= every row, rows themselves stay ragged
+                longest = max([len(c) for _, c in vals], default=0)
+                array = _fsarray([v for v, _ in vals], longest + op.get("declared_width", 0) % 4)
+                res.label("fsarray_arg")
             else:
                 array = [v for v, _ in vals]
             rows_cells = [c for _, c in vals]
-            n = len(array)
+            n = len(rows_cells)
             fit = h - top
             extra = max(0, n - fit)
             cur = op["cursor"]
@@ -94,14 +111,17 @@ def _run_case(case):
                 cur = [0, 0]
             else:
                 cur = [min(cur[0], n - 1), min(cur[1], w - 1)]
+            if op.get("omit_cursor"):
+                cur = [0, 0]  # cursor_pos not given: the documented default (0, 0), whatever earlier renders passed
+                res.label("cursor_pos_omitted")
             sb_before = term.scrolls_main
             if scrolled_once:
                 res.nontrivial = True
                 res.label("render_after_scroll")
             form = (step + n) % 4
-            if form == 1 and not case.get("reuse"):
+            if form == 1 and not case.get("reuse") and isinstance(array, list):
                 array = tuple(array)  # any sequence of lines
-            ret, e = call(lambda: win.render_to_terminal(array, tuple(cur)) if form in (0, 1) else win.render_to_terminal(array, cursor_pos=tuple(cur))
+            ret, e = call(lambda: win.render_to_terminal(array) if op.get("omit_cursor") else win.render_to_terminal(array, tuple(cur)) if form in (0, 1) else win.render_to_terminal(array, cursor_pos=tuple(cur))
                           if form == 2 else win.render_to_terminal(array=array, cursor_pos=list(cur)))
             ctx = dict(step=step, top=top, n=n, case=case)
             if e is not None:
@@ -201,7 +221,8 @@ def history(draw):
             else:
                 rows.append(draw(make_row(draw(st.integers(0, w)))))
         cur = [draw(st.integers(0, max(n - 1, 0))), draw(st.integers(0, w - 1))]
-        case["renders"].append({"rows": rows, "cursor": cur})
+        case["renders"].append({"rows": rows, "cursor": cur, "omit_cursor": draw(st.sampled_from([False, False, False, False, True])),
+                                "as": draw(st.sampled_from(["list", "list", "list", "fsarray", "fsarray_setitem"])), "declared_width": draw(st.integers(0, 12))})
         prev = rows
     return case
 
